@@ -157,11 +157,14 @@ class Lab:
         self.templates["upload"] = self.templates["upedb"]
 
     # ------------------------------------------------------------------ the component under crash
-    async def spawn(self, home, argv, crash=None, log=None):
+    async def spawn(self, home, argv, crash=None, log=None, buffered=False):
         env = dict(os.environ, HOME=home, PYTHONPATH=VERIF_DIR + os.pathsep + self.repo, VERIF_REPO=self.repo,
                    PYTHONDONTWRITEBYTECODE="1")
         env.pop("VERIF_CRASH", None)
         env.pop("VERIF_FSLOG", None)
+        env.pop("VERIF_FS_BUFFERED", None)
+        if buffered:
+            env["VERIF_FS_BUFFERED"] = "1"
         if crash:
             env["VERIF_CRASH"] = crash
         if log:
@@ -170,7 +173,7 @@ class Lab:
                                                     cwd=VERIF_DIR, stdout=asyncio.subprocess.PIPE,
                                                     stderr=asyncio.subprocess.STDOUT)
 
-    async def run_component(self, home, component, step, crash=None, log=None):
+    async def run_component(self, home, component, step, crash=None, log=None, buffered=False):
         """Run the step with the component in a subprocess. Returns dict(rc=, out=, sid=)."""
         self.retarget(home)
         res = {"rc": None, "out": "", "sid": self.sid if step != "create" else None}
@@ -186,7 +189,7 @@ class Lab:
                 res["sid"] = None
             if step == "encrypt":
                 args["db"] = {k.hex(): [i.hex() for i in v] for k, v in self.db.items()}
-            p = await self.spawn(home, ["client", step, json.dumps(args)], crash, log)
+            p = await self.spawn(home, ["client", step, json.dumps(args)], crash, log, buffered)
             try:
                 out, _ = await asyncio.wait_for(p.communicate(), 40)
             except asyncio.TimeoutError:
@@ -200,7 +203,7 @@ class Lab:
             await self.quiesce()
             return res
         # server under crash: the real client runs here, against the subprocess
-        p = await self.spawn(home, ["server"], crash, log)
+        p = await self.spawn(home, ["server"], crash, log, buffered)
         try:
             line = await asyncio.wait_for(p.stdout.readline(), 30)
             port = int(line.split()[1])
@@ -428,19 +431,27 @@ async def amain(spec, acc, ctx):
     sid_for_norm = lab.sid
     acc.add("steps_counted", f"{short}:{component}:{step}:{len(events)}")
     first = True
-    for (k, kind, rel) in events:
-        for phase in ("before", "after"):
+    # every crash point twice: with writes that reach the file at once (torn files), and with writes that stay in the
+    # interpreter's buffer until the code flushes or closes (a kill loses them; a "before write" point is then the same
+    # state as the point before it and is skipped)
+    points = [(k, kind, rel, phase, False) for (k, kind, rel) in events for phase in ("before", "after")] + \
+             [(k, kind, rel, phase, True) for (k, kind, rel) in events for phase in ("before", "after")
+              if not (kind == "write" and phase == "before")]
+    for (k, kind, rel, phase, buffered) in points:
+        if True:
             if ctx.out_of_time():
                 acc.count("enumeration_incomplete")
                 await lab.server.stop()
                 return
-            home = os.path.join(work, f"k{k}{phase}")
+            home = os.path.join(work, f"k{k}{phase}{'b' if buffered else ''}")
             shutil.copytree(lab.templates[step], home)
             acc.count("cases")
+            if buffered:
+                acc.count("crash_points_with_buffered_writes")
             acc.count(f"crash_points.{component}.{step}")
             acc.add("point_kinds", f"{component}:{step}:{kind}:{norm_path(rel, sid_for_norm)}")
-            res = await lab.run_component(home, component, step, crash=f"{k}:{phase}")
-            window = f"{phase}:{kind}:{norm_path(rel, sid_for_norm)}"
+            res = await lab.run_component(home, component, step, crash=f"{k}:{phase}", buffered=buffered)
+            window = f"{phase}:{kind}:{norm_path(rel, sid_for_norm)}" + (":buffered-writes" if buffered else "")
             if res["rc"] != 137:
                 acc.count("crash_point_not_reached")
                 acc.note(f"{short} {component}/{step} k={k}:{phase}: process ended with {res['rc']} instead of the "
@@ -448,7 +459,8 @@ async def amain(spec, acc, ctx):
                 shutil.rmtree(home, ignore_errors=True)
                 continue
             acc.count("crashes_injected")
-            trace = [f"crash {phase} event {k}: {kind} {norm_path(rel, sid_for_norm)}"]
+            trace = [f"crash {phase} event {k}: {kind} {norm_path(rel, sid_for_norm)}"
+                     + (" (writes not yet flushed by the code are lost)" if buffered else "")]
             home_b = None
             if res.get("sid"):
                 home_b = home + "-probe"
@@ -481,11 +493,11 @@ async def amain(spec, acc, ctx):
                               f"{scheme}: {component} killed {phase} event {k} ({kind} {norm_path(rel, sid_for_norm)}) of "
                               f"{step}: after restart {bad[1]}",
                               {"scheme": scheme, "component": component, "step": step, "k": k, "phase": phase,
-                               "event": [kind, norm_path(rel, sid_for_norm)], "trace": trace,
+                               "buffered_writes": buffered, "event": [kind, norm_path(rel, sid_for_norm)], "trace": trace,
                                "files_after_crash": [norm_path(f, sid_for_norm) for f in files][:30]})
             elif not bad:
                 acc.count("outcome.recovered")
-                acc.add("distinct", fp(scheme, component, step, k, phase))
+                acc.add("distinct", fp(scheme, component, step, k, phase, buffered))
             if first:
                 acc.sample({"scheme": scheme, "component": component, "step": step,
                             "events_of_the_step": [[k2, kd, norm_path(r2, sid_for_norm)] for k2, kd, r2 in events][:40],
@@ -541,10 +553,14 @@ def finish(m, tier, seed):
         "distinct_event_kinds": len(m["sets"].get("point_kinds", [])),
         "final_searches_compared": c.get("final_searches_compared", 0),
         "recoveries_with_probe_connection_first": c.get("recoveries_with_probe_first", 0),
+        "crash_points_with_buffered_writes": c.get("crash_points_with_buffered_writes", 0),
     }
+    if c.get("crash_points_with_buffered_writes", 0) < 50:
+        inc.append("fewer than 50 crash points were run with buffered writes")
     return {"coverage": cov, "inconclusive": inc,
-            "assumptions": ["crash = os._exit at a Python-level file operation with every write flushed at once; torn "
-                            "sector writes / lost page cache are not modelled (the code has no fsync)",
+            "assumptions": ["crash = os._exit at a Python-level file operation, once with every write flushed at once and once "
+                            "with writes left in the interpreter's buffer until the code flushes or closes; torn sector "
+                            "writes / a lost page cache are not modelled (the code has no fsync)",
                             "the peer component and the recovery run in the worker process with the real code pointed at "
                             "the crashed directory", "recovery policy: reconnect; redo the interrupted step unless it is "
                                                      "refused as already done; upload what the server reports missing; "
